@@ -254,7 +254,7 @@ impl Sub {
                         let mut runner = TestRunner::new_with_rng(config, TestRng::from_seed(RngAlgorithm::ChaCha, &seed));
                         let strat = strategy(cfg.tier);
                         let failed_once = std::cell::Cell::new(false);
-                        let res = runner.run(&strat, |c| {
+                        let res = catch(|| runner.run(&strat, |c| {
                             let v = judge(&**oracle, &c);
                             if failed_once.get() {
                                 // shrinking phase: do not count, only report failing or not
@@ -265,7 +265,8 @@ impl Sub {
                                 if let Verdict::Fail { msg, .. } = v { return Err(TestCaseError::fail(msg)); }
                             }
                             Ok(())
-                        });
+                        }));
+                        let res = match res { Ok(r) => r, Err(p) => { sh.stats.lock().unwrap().notes.push(format!("proptest abort: harness panic outside the oracle: {p}")); return; } };
                         match res {
                             Ok(()) => {}
                             Err(TestError::Fail(_reason, c)) => {
